@@ -28,12 +28,17 @@ def cases(tier, rng):
         for n in ((0, 1000, 100000, 1 << 20) if thorough else (1000, 100000)):
             line = "c17 forward %d %s" % (n, side)
             cs.append({"line": line, "key": line, "model": False, "tags": {"carrier": "forward", "n": n, "side": side}})
+        line = "c17 forward 1000 %s debug" % side
+        cs.append({"line": line, "key": line, "model": False, "tags": {"carrier": "forward", "n": 1000, "side": side, "variant": "debug"}})
     for c in (CARRIERS if thorough else ["tcp", "tcp-starttls", "ws", "kcp"]):
         if c == "dns":
             continue
         for side in ("app", "target"):
             line = "c17 %s 100000 %s aged" % (c, side)
             cs.append({"line": line, "key": line, "model": False, "tags": {"carrier": c, "n": 100000, "side": side, "variant": "aged"}})
+            if thorough or c == "tcp":
+                line = "c17 %s 100000 %s debug" % (c, side)       # the copy loops' logging variant (SOCKETACE_PIPE_DEBUG=1)
+                cs.append({"line": line, "key": line, "model": False, "tags": {"carrier": c, "n": 100000, "side": side, "variant": "debug"}})
             if thorough or c == "tcp":
                 line = "c17 %s 100000 %s other-open" % (c, side)
                 cs.append({"line": line, "key": line, "model": False, "tags": {"carrier": c, "n": 100000, "side": side, "variant": "other-open"}})
